@@ -38,3 +38,44 @@ pub fn label_case(obs: &mut Obs, case: &BuildCase, fam: &str, built: Option<&Bui
         }
     }
 }
+
+use crate::engine::{Engine, Job, JobCtx};
+
+/// Generated parts shared by the matrix-level properties, run after each property's own enumerated part:
+/// fully random valid cases, automatic-mask builds in small/medium versions, short payloads in forced larger
+/// versions (pure padding blocks, block-boundary endings), and steered matrices. `salt_base` keeps the streams apart
+/// from the property's own parts.
+pub fn standard_parts<F>(e: &'static Engine, quick: u32, thorough: u32, check: F)
+where
+    F: Fn(&BuildCase, &str, &mut Obs) -> Result<(), Fail> + Send + Sync + Copy + 'static,
+{
+    let total: u32 = e.tier.pick(quick, thorough);
+    let shards = e.tier.pick(32u32, 96);
+    let per = (total / shards).max(4);
+    let mut jobs: Vec<Job> = Vec::new();
+    for _ in 0..shards {
+        jobs.push(Box::new(move |jc: &mut JobCtx| {
+            let strat = crate::gens::any_case();
+            jc.run_prop(11 << 20, &strat, per * 2 / 5, |(c, _, _)| c.to_json(), |(c, fam, _), o| {
+                o.label("part:generated_any");
+                check(c, fam, o)
+            });
+            let strat = crate::gens::auto_mask_small();
+            jc.run_prop(12 << 20, &strat, per / 5, |(c, _, _)| c.to_json(), |(c, fam, _), o| {
+                o.label("part:auto_mask_small");
+                check(c, fam, o)
+            });
+            let strat = crate::gens::padded_forced();
+            jc.run_prop(13 << 20, &strat, per / 5, |(c, _, _)| c.to_json(), |(c, fam, _), o| {
+                o.label("part:padded_forced_version");
+                check(c, fam, o)
+            });
+            let strat = crate::gens::steered_case(1, 40, true);
+            jc.run_prop(14 << 20, &strat, per / 5, |(c, _)| c.to_json(), |(c, fam), o| {
+                o.label("part:steered");
+                check(c, fam, o)
+            });
+        }));
+    }
+    e.par(jobs);
+}
